@@ -19,10 +19,12 @@ go build ./... || res "does not build" 1
 go test -vet=off -count=1 -timeout 25m ./... 2>&1 | grep -E '^(--- FAIL|FAIL|ok)' > /tmp/confirm-$ID.suite
 if grep '^--- FAIL' /tmp/confirm-$ID.suite | grep -v TestMountIndex | grep -q .; then res "suite fails with change: $(grep '^--- FAIL' /tmp/confirm-$ID.suite | tr '\n' ' ')" 1; fi
 cp $DEMO $DEST/zz_demo_test.go
+TAGS=""
+grep -q '^//go:build.*verif' $DEST/zz_demo_test.go && TAGS="-tags verif"
 RUN=$(grep -o 'func Test[A-Za-z0-9_]*' $DEST/zz_demo_test.go | sed 's/func //' | tr '\n' '|' | sed 's/|$//')
-( cd $DEST && timeout 600 go test -vet=off -count=1 -timeout 300s -run "^($RUN)\$" . > /tmp/confirm-$ID.with 2>&1 ); RCW=$?
+( cd $DEST && timeout 600 go test $TAGS -vet=off -count=1 -timeout 300s -run "^($RUN)\$" . > /tmp/confirm-$ID.with 2>&1 ); RCW=$?
 git checkout -q HEAD -- . 
-( cd $DEST && timeout 600 go test -vet=off -count=1 -timeout 300s -run "^($RUN)\$" . > /tmp/confirm-$ID.without 2>&1 ); RCO=$?
+( cd $DEST && timeout 600 go test $TAGS -vet=off -count=1 -timeout 300s -run "^($RUN)\$" . > /tmp/confirm-$ID.without 2>&1 ); RCO=$?
 if [ $RCW -eq 0 ]; then res "demo PASSES with the change (rc=$RCW)" 1; fi
 if [ $RCO -ne 0 ]; then res "demo FAILS without the change (rc=$RCO)" 1; fi
 mkdir -p /verif/seeded/$ID
